@@ -45,6 +45,11 @@ def eval_test(t, fl):
         return {bool(t.value)}
     if isinstance(t, ast.UnaryOp) and isinstance(t.op, ast.Not):
         return {not v for v in eval_test(t.operand, fl)}
+    if isinstance(t, ast.Compare) and len(t.ops) == 1 and isinstance(t.left, ast.Constant) and isinstance(t.comparators[0], ast.Name):
+        # c <op> i: the mirrored spelling
+        mir = {ast.Lt: ast.Gt, ast.Gt: ast.Lt, ast.LtE: ast.GtE, ast.GtE: ast.LtE, ast.Eq: ast.Eq, ast.NotEq: ast.NotEq}.get(type(t.ops[0]))
+        if mir is not None:
+            t = ast.Compare(left=t.comparators[0], ops=[mir()], comparators=[t.left])
     if isinstance(t, ast.Compare) and len(t.ops) == 1 and isinstance(t.left, ast.Name) and fl.get(t.left.id) is not None and fl.get("@idx:" + t.left.id) \
             and isinstance(t.comparators[0], ast.Constant) and isinstance(t.comparators[0].value, int):
         # index variable of `for i, x in enumerate(..)`: fl[i] is "i > 0"
